@@ -518,3 +518,26 @@ Proof.
   - rewrite pm_get_union. rewrite (pm_union_nil_empty comb He). reflexivity.
   - rewrite !pm_get_union. cbn [pm_get]. destruct (pm_get p comb); reflexivity.
 Qed.
+
+(** * A straddling L1 file is never seen.  The file was opened at TXID 1 from
+    L0 (maxTXID1 seeded from the position), polled transactions 2 and 3 from
+    L0, then L1 1..3 was written and L0 retention removed L0 files 1 and 2.
+    The next poll consumes nothing (L1 1..3 starts below maxTXID1 + 1), the
+    index still names the L0 files 1..1 and 2..2, which are in neither listing:
+    those reads cannot be served although Restore(TXID=3) exists (L1 1..3). *)
+Example poll_straddling_l1_keeps_entries_into_deleted_l0 :
+  let e t := mkElem 0 t t in
+  let v := mkVfs [(1, e 1); (2, e 2); (3, e 3)] [] false 3 1 3 0 in
+  let l0 := [mkFile 0 3 3 3 [3]] in
+  let l1 := [mkFile 1 1 3 3 [1; 2; 3]] in
+  l1_straddles v l1 = true /\ poll v l0 l1 = Some v /\
+  read_lookup v 2 = Some (e 2) /\
+  existsb (fun f => N.eqb (f_level f) 0 && N.eqb (f_min f) 2) (l0 ++ l1) = false.
+Proof. repeat split; vm_compute; reflexivity. Qed.
+
+(** and once the next L1 file appears every poll fails ("non-contiguous ltx file") *)
+Example poll_after_straddling_l1_errors :
+  let e t := mkElem 0 t t in
+  let v := mkVfs [(1, e 1); (2, e 2); (3, e 3)] [] false 3 1 3 0 in
+  poll v [mkFile 0 4 4 3 [1]; mkFile 0 5 5 3 [2]] [mkFile 1 1 3 3 [1; 2; 3]; mkFile 1 4 5 3 [1; 2]] = None.
+Proof. vm_compute. reflexivity. Qed.
